@@ -109,7 +109,7 @@ Record trec := TRec { tr_client : string; tr_sub : string; tr_actor : string;
 Inductive tlife := TLife (expired aslife : bool).
 Inductive xtok := XEmpty | XOpaque (id : sid) (sub : string)
                 | XJwt (id : sid) (sub actor : string) (l : tlife)   (* actor: the act.sub claim *)
-                | XIdTok (sub azp : string) (l : tlife) | XOther.
+                | XIdTok (sub azp actor : string) (l : tlife) | XOther.    (* actor: rendering of the act claim, "" = none *)
 Inductive out :=
 | OIssued (at_id rt_id : sid)
 | OInfo (sub : string)
@@ -125,8 +125,19 @@ Inductive out :=
    type of its own, does it replace the subject, does it empty the scopes.  refstore's own policy
    is TEPolicy true None None false false.  p_verifier: the storage also implements the OPTIONAL
    TokenExchangeTokensVerifierStorage and answers for third-party tokens (Ext) per role. *)
+(* p_session: the storage implements the OPTIONAL CanTerminateSessionFromRequest and finds the end
+   user of an end_session request that names none (no id_token_hint) in the request context -
+   Some u: the user agent's session belongs to u (cookie put into the context by the deployment).
+   p_act: what the storage decides about the act claim of issued tokens for a delegation request
+   (GetPrivateClaimsFromTokenExchangeRequest / SetUserinfoFromTokenExchangeRequest): refstore's own
+   (JWT access tokens name the actor token's subject, ID tokens carry no act), none at all, a
+   mapped actor id, an actor chain. *)
+Inductive actpol := ActDefault | ActNone | ActMapped | ActChain.
 Record tepolicy := TEPolicy { p_default : bool; p_force : option ttype; p_subject : option string; p_empty : bool;
-                              p_verifier : bool }.
+                              p_verifier : bool; p_session : option string; p_act : actpol;
+                              p_nologout : string }.
+  (* p_nologout: a client whose sessions the from-request storage FAILS to end
+     (TerminateSessionFromRequest returns an error for it); "" = none *)
 Inductive hist_input := Hist (clients : list client) (pol : tepolicy) (ops : list (nat * bool * gop ptok)).
 
 (* ---------------------------------------------------------------- storage (refstore contract) *)
@@ -412,13 +423,31 @@ Definition revoke (cl : list client) (r : router) (g : store) (c : cred) (t : to
       end
   end.
 
+(* whose session an end_session request is about: the user the request names (id_token_hint),
+   else - for storages that implement CanTerminateSessionFromRequest - the user agent session's *)
+Definition ua_user (pol : tepolicy) (named : string) : string :=
+  match p_session pol with
+  | Some u => if nonempty named then named else u
+  | None => named
+  end.
+
+(* the storage cannot end this client's session: TerminateSessionFromRequest fails *)
+Definition logout_fails (pol : tepolicy) (client_id : string) : bool :=
+  match p_session pol with
+  | Some _ => nonempty (p_nologout pol) && String.eqb (p_nologout pol) client_id
+  | None => false
+  end.
+
 Definition endsession (cl : list client) (r : router) (g : store) (hint : option tokstr) (cid : string) : store * out :=
   let bad := (g, OErr S400 true) in
-  let finish (user client_id : string) :=
+  let finish (named client_id : string) :=
+    let user := ua_user (policy g) named in    (* TerminateSessionFromRequest, else TerminateSession(UserID, ClientID) *)
     if nonempty client_id then
       match find_client cl client_id with
       | None => (g, match r with Prov => OErr S400 true | Leg => OErr S500 true end)
-      | Some k => (terminate g user (c_id k), ORedirect)
+      | Some k => if logout_fails (policy g) (c_id k)
+                  then (g, match r with Prov => OErr S400 true | Leg => OErr S500 true end)   (* the storage's error (server_error) is answered, never a redirect *)
+                  else (terminate g user (c_id k), ORedirect)
       end
     else (terminate g user "", ORedirect) in
   match hint with
@@ -442,6 +471,17 @@ Definition decided_scopes (pol : tepolicy) (scopes : list string) : list string 
   if p_empty pol then [] else drop_scopes scopes.
 Definition decided_subject (pol : tepolicy) (ssub : string) : string :=
   match p_subject pol with Some x => x | None => ssub end.
+(* the act claim the storage policy decides for a token issued to a request whose actor token
+   speaks for [asub] ("" = no actor); rendered as sub, nested actors appended with ">" *)
+Definition decided_act (pol : tepolicy) (jwt_at : bool) (asub : string) : string :=
+  if nonempty asub then
+    match p_act pol with
+    | ActDefault => if jwt_at then asub else ""
+    | ActNone => ""
+    | ActMapped => String.append "mapped:" asub
+    | ActChain => String.append asub ">gateway"
+    end
+  else "".
 
 Definition exchange (cl : list client) (r : router) (s : st) (c : cred) (subj : tokstr) (styp : ttype)
     (actor : option (tokstr * ttype)) (req : ttype) (scopes aud : list string) : st * out :=
@@ -476,14 +516,14 @@ Definition exchange (cl : list client) (r : router) (s : st) (c : cred) (subj : 
                 let ssub := decided_subject (policy g) ssub in
                 let t := TRec (c_id k) ssub asub sc aud (c_exp k) in
                 let lf := TLife (c_exp k) true in     (* lifetimes are the client's: born expired iff registered so *)
-                let acc n := if c_jwt k then XJwt (AT n) ssub asub lf else XOpaque (AT n) ssub in   (* CreateJWT: act from GetPrivateClaimsFromTokenExchangeRequest *)
+                let acc n := if c_jwt k then XJwt (AT n) ssub (decided_act (policy g) true asub) lf else XOpaque (AT n) ssub in   (* CreateJWT: act from GetPrivateClaimsFromTokenExchangeRequest *)
                 match effective_type (policy g) req with      (* CreateTokenExchangeResponse switches on what the storage left *)
                 | TAccess =>
                     ((add_at (nx + 1) t g, nx + 1), OExch TAccess (acc (nx + 1)) NoId false sc (Some t))
                 | TRefresh =>
                     ((add_at_rt (nx + 1) (nx + 2) t g, nx + 2), OExch TRefresh (acc (nx + 2)) (RT (nx + 1)) true sc (Some t))
                 | TId =>
-                    (s, OExch TId (XIdTok ssub (c_id k) lf) NoId false sc None)   (* CreateIDToken keeps the request subject *)
+                    (s, OExch TId (XIdTok ssub (c_id k) (decided_act (policy g) false asub) lf) NoId false sc None)   (* CreateIDToken keeps the request subject *)
                 | _ => e400          (* jwt, a custom type, or no type at all: invalid_request (F07 fixed) *)
                 end
           end
@@ -544,7 +584,7 @@ Definition xtok_eqb (a b : xtok) : bool :=
   | XEmpty, XEmpty | XOther, XOther => true
   | XOpaque i s, XOpaque j u => sid_eqb i j && String.eqb s u
   | XJwt i s a l, XJwt j u b m => sid_eqb i j && String.eqb s u && String.eqb a b && tlife_eqb l m
-  | XIdTok s z l, XIdTok u w m => String.eqb s u && String.eqb z w && tlife_eqb l m
+  | XIdTok s z a l, XIdTok u w b m => String.eqb s u && String.eqb z w && String.eqb a b && tlife_eqb l m
   | _, _ => false
   end.
 Definition out_eqb (a b : out) : bool :=
